@@ -21,7 +21,7 @@ import g4 as g4mod
 HERE = os.path.dirname(os.path.abspath(__file__))
 VERIF = os.path.dirname(HERE)
 REPO = os.environ.get("VERIF_REPO", "/repo")
-GEN = os.path.join(VERIF, "lean", "Gen")
+GEN = os.environ.get("VERIF_GEN_DIR") or os.path.join(VERIF, "lean", "Gen")
 
 
 # ------------------------------------------------------------------ extraction
@@ -192,6 +192,68 @@ def re_of_alts(alts, frags):
     return "(Re.alts [%s])" % ", ".join(parts)
 
 
+RULE_BASE = 1000
+
+
+def sym_re(code):
+    return "(Re.set [(%d, %d)])" % (code, code)
+
+
+def pre_of_elem(e, tok, rul):
+    """parser-rule element as a regular expression over symbol codes: token type for a token, 0 for EOF,
+    1000 + rule index for a reference to a parser rule"""
+    k = e[0]
+    if k == "ref":
+        n = e[1]
+        if n == "EOF":
+            return sym_re(0)
+        if n in tok:
+            return sym_re(tok[n])
+        return sym_re(RULE_BASE + rul[n])
+    if k == "group":
+        return pre_of_alts(e[1], tok, rul)
+    if k == "labelled":
+        return pre_of_elem(e[2], tok, rul)
+    if k in ("opt", "star", "plus"):
+        return "(Re.%s %s)" % (k, pre_of_elem(e[1], tok, rul))
+    raise g4mod.G4Error("element %r in a parser rule" % (e,))
+
+
+def pre_of_seq(elems, tok, rul):
+    parts = [pre_of_elem(e, tok, rul) for e in elems]
+    if not parts:
+        return "Re.eps"
+    if len(parts) == 1:
+        return parts[0]
+    return "(Re.seqs [%s])" % ", ".join(parts)
+
+
+def pre_of_alts(alts, tok, rul):
+    parts = [pre_of_seq(a["elems"], tok, rul) for a in alts]
+    if len(parts) == 1:
+        return parts[0]
+    return "(Re.alts [%s])" % ", ".join(parts)
+
+
+def pre_of_rule(r, tok, rul):
+    """right-hand side of a parser rule; a directly left-recursive rule is first rewritten the way ANTLR
+    does it (LeftRecursiveRuleTransformer): R : primary | R rest  ==>  R : (primary alts) (rest alts)*"""
+    def leftrec(a):
+        e = a["elems"][0] if a["elems"] else None
+        while e is not None and e[0] == "labelled":
+            e = e[2]
+        return e is not None and e[0] == "ref" and e[1] == r["name"]
+    rec = [a for a in r["alts"] if leftrec(a)]
+    if not rec:
+        return pre_of_alts(r["alts"], tok, rul), False
+    prim = [a for a in r["alts"] if not leftrec(a)]
+    p = [pre_of_seq(a["elems"], tok, rul) for a in prim]
+    q = [pre_of_seq(a["elems"][1:], tok, rul) for a in rec]
+    pr = p[0] if len(p) == 1 else "(Re.alts [%s])" % ", ".join(p)
+    qr = q[0] if len(q) == 1 else "(Re.alts [%s])" % ", ".join(q)
+    return "(Re.seqs [%s, (Re.star %s)])" % (pr, qr), True
+
+
 def emit_g4(g):
     lex = [r for r in g["rules"] if r["lexer"]]
     par = [r for r in g["rules"] if not r["lexer"]]
@@ -222,6 +284,16 @@ def emit_g4(g):
     out.append("def parserRules : List (String × String) :=\n  [%s]" % ",\n   ".join(
         "(%s, %s)" % (lean_str(r["name"]), lean_str("|".join(g4mod.r_alt(a) for a in r["alts"]))) for r in par))
     out.append("")
+    tok = {n: i + 1 for i, (n, _, _) in enumerate(rules)}
+    rul = {r["name"]: i for i, r in enumerate(par)}
+    pres = [(r["name"],) + pre_of_rule(r, tok, rul) for r in par]
+    out.append("/-- every parser rule as a regular expression over symbol codes: a token is its type, EOF is 0, a "
+               "reference to a parser rule is 1000 + its index; a directly left-recursive rule is given in the form "
+               "ANTLR rewrites it to, primary (operator operand)* -/")
+    out.append("def parserAllRules : List (String × Re) :=\n  [%s]" % ",\n   ".join(
+        "(%s, %s)" % (lean_str(n), e) for n, e, _ in pres))
+    out.append("")
+    out.append(emit_str_list("leftRecursiveRules", [n for n, _, lr in pres if lr]))
     out.append("/-- literal of every token whose rule is a single string literal (as ANTLR's vocabulary lists it) -/")
     lits = []
     for r in lex:
